@@ -5,5 +5,5 @@ CONSTANTS
   Grans = {32768, 4096, 509, 7}
   SmallCounts = {0, 1, 2, 3, 50}
 SPECIFICATION Spec
-INVARIANTS LadderHits LadderClean SplitExact
+INVARIANTS Whole
 CHECK_DEADLOCK FALSE
